@@ -152,13 +152,21 @@ HasNestedLiteral(e) ==
 (*   pylist;  raise = evaluation raised TypeError                          *)
 (***************************************************************************)
 ClassNames == {"int", "str", "object", "A", "B", "P", "list", "dict", "tuple", "type",
-               "TimeoutError", "Warning", "builtins.TimeoutError", "builtins.Warning"}
-BareNames == {"List", "Dict", "Tuple", "Type", "Callable", "Sequence"}
+               "TimeoutError", "Warning", "builtins.TimeoutError", "builtins.Warning",
+               \* classes of the two-module world of AnnotationContext.tla: "<module>.<class>" (never leaves)
+               "A.K", "B.K", "A.Solo"}
+\* what a name lookup that finds nothing yields (annotations.py:169 handle_undefined_name / :944): an
+\* AnyValue whose source says whether errors were suppressed; only AnnotationContext.tla writes these ids
+UndefinedIds == {"undefined:error", "undefined:inference"}
+BareNames == {"List", "Dict", "Tuple", "Type", "Callable", "Sequence",
+              "Iterator", "AsyncIterator"}      \* return annotations of generators (DefShapes.tla); never leaves
 SpecialNames == {"Optional", "Union", "Literal", "Annotated", "Final", "ClassVar", "Unpack"}
 
 NameObj(id) ==
     CASE id \in ClassNames -> X("class", id, << >>)
       [] id = "None" -> X("none", "", << >>)
+      [] id = "undefined:error" -> X("undefined", "error", << >>)
+      [] id = "undefined:inference" -> X("undefined", "inference", << >>)
       [] id = "Any" -> X("any", "", << >>)
       [] id = "TD" -> X("td", "TD", << >>)
       [] id = "NT" -> X("newtype", "NT", << >>)
@@ -234,7 +242,7 @@ PySubscript(root, as) ==
          [] r \in {"list", "dict", "type"} -> X("alias", r, as)               \* types.GenericAlias keeps its args as given
          [] r = "tuple" -> IF Len(as) = 1 /\ as[1].k = "emptytuple" THEN X("alias", r, << >>) ELSE X("alias", r, as)
          [] r = "Tuple" -> IF Len(as) = 1 /\ as[1].k = "emptytuple" THEN X("alias", r, << >>) ELSE X("alias", r, conv)
-         [] r \in {"List", "Dict", "Type", "Sequence"} -> X("alias", r, conv)
+         [] r \in {"List", "Dict", "Type", "Sequence", "Iterator", "AsyncIterator"} -> X("alias", r, conv)
          [] r = "Callable" ->           \* as typing.get_args presents it: ([params], ret) or (..., ret)
                 X("alias", r, <<IF as[1].k = "pylist" THEN X("pylist", "", [i \in 1..Len(as[1].args) |-> TConv(as[1].args[i])])
                                  ELSE as[1], conv[2]>>)
@@ -346,6 +354,7 @@ OriginOf(root) ==
       [] root \in {"tuple", "Tuple"} -> "tuple"
       [] root \in {"type", "Type"} -> "type"
       [] root = "Sequence" -> "Sequence"
+      [] root \in {"Iterator", "AsyncIterator"} -> root
       [] root \in {"Callable", "collections.abc.Callable"} -> "Callable"
 
 (***************************************************************************)
@@ -370,6 +379,7 @@ ImplRt(r, au) ==
       [] r.k = "special" /\ r.id \in {"Final", "ClassVar"} -> AnyV("incomplete_annotation")   \* :497
       [] r.k = "fwd" -> ImplFwd(r.args[1], FALSE)                                             \* :499 (allow_unpack is not forwarded)
       [] r.k = "ellipsis" -> AnyV("explicit")                                                 \* :518
+      [] r.k = "undefined" -> AnyV(r.id)                                                      \* :693 an AnyValue passes through _type_from_value
       [] OTHER -> AnyV("error")                                                               \* :545 "Invalid type annotation"
 
 \* annotations.py:1141 _value_of_origin_args
@@ -394,7 +404,7 @@ ImplOriginArgs(r, au) ==
                         ELSE CallableV(SigV(<<EllipsisParam>>, ret))                          \* :576 [Ellipsis]
          [] origin = "annotated" ->                                                           \* :1177
                 Annotate(ImplRt(args[1], au), [i \in 1..(Len(args) - 1) |-> KnownV(args[i + 1].id)])
-         [] origin \in {"list", "dict", "Sequence"} ->                                        \* :1186 isinstance(origin, type)
+         [] origin \in {"list", "dict", "Sequence", "Iterator", "AsyncIterator"} ->           \* :1186 isinstance(origin, type)
                 IF args = << >> THEN TypedV(origin) ELSE Mk("Generic", origin, [i \in 1..Len(args) |-> rt(i)])
          [] origin = "literal" ->                                                             \* :1193
                 IF Len(args) = 1 THEN KnownV(args[1].id) ELSE Unite([i \in 1..Len(args) |-> KnownV(args[i].id)])
